@@ -94,10 +94,23 @@ def generate(rng, tier):
             lines = schema_lines(nschema) + ["X 0 0", "X 1 0", "PB 0 " + hx(host.replace(b"%s", arg)), "D 0", "D 1", "F 0", "F 1"]
             cases.append(Case("nest%d" % n, lines, {"k": None, "text": host, "nregs": 0, "nested": True}))
             n += 1
+    # the same for value-parsing callbacks: the token text handed to the callback (the scanner's buffer for an unquoted
+    # word, its scratch string for a quoted one) must survive a scan the callback starts itself
+    pschema = [Opt("i", "int", 0, 0), Opt("s", "str", 0, b"d", "p"), Opt("n", "int", 0, 1, "p"), Opt("sl", "str", LIST, None, "p"),
+               Opt("sec", "sec", 0, None, "-", [Opt("t", "str", 0, None, "p")])]
+    ptexts = [b's = "nest:i = 3\\n"\ni = 1\n', b"s = nest:i=3\ni = 1\n", b"n = nest:i=77\ns = after\n", b'sl = { "nest:i = 1\\n", nest:i=2, "plain" }\n',
+              b'sec { t = "nest:i = 9 s = \\"q\\"\\n" }\ns = x\n', b's = "nest:i = \\"open\n"\ns = y\n', b"s = 'nest:i = 5'\ns = \"nest:i = 6\"\n"]
+    for t in ptexts:
+        lines = schema_lines(pschema) + ["X 0 0", "X 1 0", "PB 0 " + hx(t), "D 0", "F 0", "F 1"]
+        cases.append(Case("pnest%d" % n, lines, {"k": None, "text": t, "nregs": 0, "nested": True, "pnested": True}))
+        n += 1
     return cases
 
 
 def project(lines, case):
+    if case.meta.get("pnested"):
+        # context 0's outcome is the model's, which knows nothing of the nested parse (context 1's callbacks are the harness')
+        return [l for l in lines if not l.startswith(("I ", "G ", "T "))]
     if case.meta.get("nested"):
         # the model does not run the nested parse: context 1's dump and the nested invocations are the harness' business
         out, skip = [], False
@@ -106,7 +119,8 @@ def project(lines, case):
                 continue
             out.append(l)
         return [l for l in out if l.startswith(("R ", "H "))]
-    return [l for l in lines if not (l.startswith("I ") or l.startswith("G "))]
+    # ("T nest ..." lines are written by the harness about a parse its own callback started; the model does not run it)
+    return [l for l in lines if not (l.startswith("I ") or l.startswith("G ") or l.startswith("T nest "))]
 
 
 def oracle(case, il, ctx):
